@@ -546,9 +546,10 @@ class DocutilsRenderer(RendererProtocol):
                 attribution = nodes.attribution(token.attrs["attribution"], "")
                 self.add_line_and_source_path(attribution, token)
                 with self.current_node_context(attribution, append=True):
+                    # note nested_render_text takes the 0-based line
                     self.nested_render_text(
                         str(token.attrs["attribution"]),
-                        token_line(token, 0),
+                        max(token_line(token, 0) - 1, 0),
                         inline=True,
                     )
 
@@ -1255,7 +1256,9 @@ class DocutilsRenderer(RendererProtocol):
         }
         if fields:
             field_list = self.dict_to_fm_field_list(
-                fields, language_code=self.document.settings.language_code
+                fields,
+                language_code=self.document.settings.language_code,
+                line=position,
             )
             self.current_node.append(field_list)
 
@@ -1316,7 +1319,8 @@ class DocutilsRenderer(RendererProtocol):
             body.source, body.line = self.document["source"], line
             if key in bibliofields:
                 with self.current_node_context(body):
-                    self.nested_render_text(value, line, inline=True)
+                    # note nested_render_text takes the 0-based line
+                    self.nested_render_text(value, max(line - 1, 0), inline=True)
             else:
                 body += nodes.literal(value, value)
 
